@@ -148,12 +148,16 @@ def runCmd (b : B) (what : List String) : Except String (List String) := do
         [s!"dtnode {showRats (((List.range c.N).map Node.at ++ [Node.final]).map (fun q => (c.envNode q #[]).DT))}",
          s!"dtcnode {showRats (((List.range c.N).map Node.at ++ [Node.final]).map (fun q => (c.envNode q #[]).DTc))}",
          s!"dtstep {showRats ((List.range c.N).flatMap (fun k => (List.range c.M).map (fun i => (c.envStep k i).DT)))}",
+         s!"roots {showRats ((List.range c.N).flatMap (fun k => (List.range c.M).flatMap (fun i => (List.range c.d).map (fun j => c.rootTime k i j))))}",
          s!"dtcstep {showRats ((List.range c.N).flatMap (fun k => (List.range c.M).map (fun i => (c.envStep k i).DTc)))}"] ++ ["end"]
   | ["states"] =>
       return (List.range (c.N+1)).map (fun k => s!"X {k} {showRats (c.Xn k).toList}") ++
         (List.range (c.N+1)).map (fun k => s!"Q {k} {showRats (c.Qn k).toList}") ++
         ((List.range c.N).flatMap fun k => (List.range c.M).map fun i =>
-            "xs " ++ toString k ++ " " ++ toString i ++ " " ++ showRats (c.xStep k i).toList ++ " | " ++ showRats (c.qStep k i).toList) ++ ["end"]
+            "xs " ++ toString k ++ " " ++ toString i ++ " " ++ showRats (c.xStep k i).toList ++ " | " ++ showRats (c.qStep k i).toList) ++
+        (List.range (c.N+1)).map (fun k => s!"Z {k} {showRats (c.Znode k).toList}") ++
+        ((List.range c.N).flatMap fun k => (List.range c.M).map fun i =>
+            "zs " ++ toString k ++ " " ++ toString i ++ " " ++ showRats (c.envStep k i).z.toList) ++ ["end"]
   | ["ph"] => return [s!"ph {showRats c.phValues.toList}", "end"]
   | _ => throw s!"unknown run {what}"
 
